@@ -78,6 +78,10 @@ func genKeys(r *rand.Rand, max int, collisions int) (keys [][]byte, groups []int
 		[]byte(""), []byte("a"), []byte(strings.Repeat("L", 300)), {0, 1, 0, 255, 0}, []byte("pre"), []byte("prefix"), []byte("k1"), []byte("k2"),
 	}
 
+	if chance(r, 0.1) {
+		pool = append(pool, []byte(strings.Repeat("H", pick(r, 4097, 5000, 70000))))
+	}
+
 	r.Shuffle(len(pool), func(i, j int) { pool[i], pool[j] = pool[j], pool[i] })
 
 	n := 1 + r.IntN(max)
